@@ -42,6 +42,8 @@ HAND = [
     "\n\n", " \n\n", "\n \n", "a\n \nb", "a\n  b\n c", "\ta", "a\n\tb", "  a\nb", " \na\nb", "a\nb ", "a\nb\\", 'a\nb"', "a\nb'",
     "a\nb\"\"\"", "a\n'''b\"\"\"", "a\n'''b\"", "a\n\"\"\"b'", "\n'''\"\"\"", "\n\"\"\"\"'''", "\r", "\r\n", "a\rb\nc", "\x00", "\\N{BULLET}", "{x}", "\ud7ff", "\ue000", "\U0010ffff",
     "a" * 100 + "\n" + "b" * 100, " " * 90, "\\" * 7, "a\\\nb",
+    # multi-line text with a common indentation, starting and/or ending with a line break (docstring-like layouts)
+    "\n  select *\n    from t\n  where x\n", "\n    a\n    b\n", "  a\n  b\n", "\n  a\n  b", "\n\ta\n\tb\n", "\n  a\n\n  b\n",
 ]
 KINDS = ("top", "list", "dict", "tuple")
 CAP_KNOWN = 5
@@ -464,7 +466,7 @@ def _run_tasks(tasks, budget, workers=6):
     return total, skipped
 
 
-@standin("B-str", props=["C12"],
+@standin("B-str", props=["C12", "C16"],
          bound="str/bytes over a 12-symbol adversarial alphabet: all strings of length <= 3 (quick) / <= 5 (thorough) unformatted; "
                "hand-picked + 400 (quick) / 20 000 (thorough) seeded random strings of length <= 12 top-level and inside list/dict/tuple "
                "through black and format_command=cat; thorough adds every non-surrogate code point as a 1-char string")
